@@ -394,6 +394,26 @@ CLAIMED["C06"]["text"] += (
     "(SfModel/AbsQuery.lean) and SfProps/C06Query.lean (accepts_strip_queries, reads_with_queries_concat, get_chunk_data_restores_position).")
 CLAIMED["C05"]["text"] += " Round 5: the count / position / end-of-data clauses of reads with non-audio calls in between (vlib/querycamp.py, SfProps/C06Query.lean)."
 
+# ---- round 5 (worker gapc): additions to the claims of C01 / C04 / C07 / C14 / C19 (appended, the texts above are unchanged) ----
+CLAIMED["C01"]["text"] += (
+    " Round 5: CAF/ALAC packet sizes are steered THROUGH the case splits of the packet table's BER coding by measurement (final packets and packets followed by another packet of exactly "
+    "127 / 128 / 129 and 16383 / 16384 / 16385 bytes, uncompressed and compressed, the hit counts are in the evidence); C04AlacBer: berEnc is the base-128 numeral (value, flags, no leading zero digit), "
+    "only size 0 is written as the reader's terminator, reopen_counts_every_packet.")
+CLAIMED["C04"]["text"] += " Round 5: the BER-boundary ALAC jobs of C01 run here too (frames at re-open, size fields, every byte against Sf.Alac)."
+CLAIMED["C07"]["text"] += (
+    " Round 5: the ALAC partition twins cover all four caller types (alac_write_s / _i / _f / _d are four copies of the staging loop), item and frame variants; Sf.AlacTyped + C07AlacTyped: "
+    "typed_partition_independent (closed bytes are a function of the converted item stream, caller types mixed freely, every codec core).")
+CLAIMED["C14"]["text"] += (
+    " Round 5: stream F reads FOREIGN but valid files (AU annotation, WAV chunks in front of / behind data and an 18-byte fmt chunk, AIFF SSND offset / ANNO / COMM behind SSND, CAF free chunk, W64 and RF64 junk "
+    "chunks, SVX ANNO) through vio / path / fd close_desc 0|1 / embedded / pipe whole and in 4096-byte pieces; a transformed file counts only when the reference route delivers the base file's samples. "
+    "Sf.RoutesSkip + C14Skip: reaching the audio by reading forward is route independent incl. pipes (pipe_first_audio_read_forward), by seeking it is not (aiff_pipe_old_rule). Found and repaired: AIFF SSND offset "
+    "through a pipe (KF-C14-AIFF-SSND-OFFSET-PIPE).")
+CLAIMED["C19"]["text"] += (
+    " Round 5: (i) name class on real descriptors: live handles whose files have the same name in different directories or no name (fd routes), ALAC writers with a packet spooled before any close; "
+    "vio ALAC twins beyond one packet (vlib/spoolcamp.py); Sf.SpoolWorld + C19Spool (run_isolated: any number of writers, every history, injective spool names => every file receives what its handle spooled; fopen_shared_truncates, two_writers_shared_name). (ii) heap history: every writer "
+    "script of every container (SD2 with its resource fork) under three allocator fills of fresh heap memory -- transcripts and closed bytes must not follow the fill (vlib/heapcamp.py); Sf.HeaderBuf + C19Heap "
+    "(emit_independent_of_heap, gap_is_zero, no_clearing_rule_leaks_heap).")
+
 def main():
     checks = []
     for p in PROPS:
